@@ -246,6 +246,11 @@ def affine_oracle(spec):
         groups.setdefault(ch['name'].split('|')[0], []).append(ch)
     o1 = build_obs(spec['obs'])
     c = spec['c']
+    if spec['mode'] == 'shift':
+        # the constant is measured in units of the spread of the data (|c| <= 1000 sigma): a constant that is huge compared
+        # with the fluctuations pushes them into the rounding of (sample - mean), which is not what the property is about
+        spread = max(float(np.std(chain_samples(ch))) for ch in spec['obs']['chains'])
+        c = 20.0 * c * spread
     o2 = None
     for e, chs in sorted(groups.items()):
         xs = [chain_samples(ch) for ch in chs]
